@@ -159,7 +159,6 @@ def dispatchC04 : Dispatch := fun op args =>
     match na.toNat?, hexToNat? a, nb.toNat?, hexToNat? b with
     | some na, some a, some nb, some b =>
       let l1 := match boxedAddAssign (toLimbs na a) (toLimbs nb b) with | some v => limbsHexLen v | none => "panic"
-      let l1 := if nb > na then l1 ++ " ## panic" else l1   -- debug_assert on the precision in the dbgchk profile
       let exact := if a + b < B ^ na then s!"{na}:{natToHex (a + b)}" else "panic"
       some s!"{l1} ;; {if nb > na ∧ exact ≠ "panic" then exact ++ " || panic" else exact}"
     | _, _, _, _ => badArgs
@@ -167,7 +166,6 @@ def dispatchC04 : Dispatch := fun op args =>
     match na.toNat?, hexToNat? a, nb.toNat?, hexToNat? b with
     | some na, some a, some nb, some b =>
       let l1 := match boxedSubAssign (toLimbs na a) (toLimbs nb b) with | some v => limbsHexLen v | none => "panic"
-      let l1 := if nb > na then l1 ++ " ## panic" else l1
       let exact := if b ≤ a then s!"{na}:{natToHex (a - b)}" else "panic"
       some s!"{l1} ;; {if nb > na ∧ exact ≠ "panic" then exact ++ " || panic" else exact}"
     | _, _, _, _ => badArgs
@@ -177,8 +175,9 @@ def dispatchC04 : Dispatch := fun op args =>
     | some na, some a, some nb, some b =>
       let x := toLimbs na a; let y := toLimbs nb b
       let m := B ^ na
-      let l1 := s!"{limbsHexLen (adcAssign x y 0).1} {limbsHexLen (sbbAssign x y 0).1}"
-      let l1 := if nb > na then l1 ++ " ## panic" else l1
+      let l1 := match boxedWrappingAddAssign x y, boxedWrappingSubAssign x y with
+        | some u, some v => s!"{limbsHexLen u} {limbsHexLen v}"
+        | _, _ => "panic"
       let exact := s!"{na}:{natToHex ((a + b) % m)} {na}:{natToHex ((a + m - b % m) % m)}"
       some s!"{l1} ;; {if nb > na then exact ++ " || panic" else exact}"
     | _, _, _, _ => badArgs
